@@ -258,6 +258,57 @@ fn conformance(ctx: &mut Ctx) -> u64 {
             ctx.machinery_error(format!("kernel/plugin disagreement on modify gid={g}: real={real:?} kernel={kern:?}"));
         }
     }
+    // replacement path: an entry that ALREADY has a gid number gets another one, by purge+set,
+    // by a Set modification, and for both posix groups and posix accounts
+    for (i, g) in vals.iter().enumerate() {
+        for (kind, form) in [(0usize, 0usize), (0, 1), (1, 0)] {
+            let u = Uuid::from_u128(0xcafe1000_0000_4000_8000_000000000000 + (i * 4 + kind * 2 + form) as u128);
+            let name = format!("rg{i}x{kind}{form}");
+            let r = srv.write_abort(srv::t(13), |w| {
+                let mut e: Entry<EntryInit, EntryNew> = Entry::new();
+                e.add_ava(Attribute::Class, EntryClass::Object.to_value());
+                if kind == 0 {
+                    e.add_ava(Attribute::Class, EntryClass::Group.to_value());
+                    e.add_ava(Attribute::Class, EntryClass::PosixGroup.to_value());
+                } else {
+                    e.add_ava(Attribute::Class, EntryClass::Account.to_value());
+                    e.add_ava(Attribute::Class, EntryClass::Person.to_value());
+                    e.add_ava(Attribute::Class, EntryClass::PosixAccount.to_value());
+                    e.add_ava(Attribute::DisplayName, Value::new_utf8s("r"));
+                }
+                e.add_ava(Attribute::Name, Value::new_iname(&name));
+                e.add_ava(Attribute::Uuid, Value::Uuid(u));
+                w.internal_create(vec![e])?;
+                let before = w.internal_search_uuid(u).ok().and_then(|e| e.get_ava_single_uint32(Attribute::GidNumber));
+                if before.is_none() {
+                    return Err(OperationError::InvalidState);
+                }
+                let ml = if form == 0 {
+                    ModifyList::new_purge_and_set(Attribute::GidNumber, Value::new_uint32(*g))
+                } else {
+                    ModifyList::new_list(vec![Modify::Set(Attribute::GidNumber, kanidmd_lib::valueset::ValueSetUint32::new(*g))])
+                };
+                let mr = w.internal_modify_uuid(u, &ml);
+                let after = w.internal_search_uuid(u).ok().and_then(|e| e.get_ava_single_uint32(Attribute::GidNumber));
+                Ok::<_, OperationError>((mr, after))
+            });
+            n += 1;
+            match r {
+                Ok(Ok((mr, after))) => {
+                    if let Some(got) = after {
+                        if reserved(got) {
+                            ctx.violation(&format!("replace_reserved_accepted:{}", range_name(got)), &format!("an entry that already had a gid number ended with reserved gid {got} after a replacement ({}, form {form}): modify answered {mr:?}", if kind == 0 { "posix group" } else { "posix account" }), json!({"side": "replace", "value": got, "kind": kind, "form": form}));
+                        }
+                    }
+                    let kern = k.run(u, Some(*g));
+                    if mr.is_ok() != kern.is_ok() {
+                        ctx.violation("replace_disagrees_with_kernel", &format!("replacing the gid number of an existing entry by {g} answered {mr:?} but assigning it afresh answers {kern:?}"), json!({"side": "replace", "value": g, "kind": kind, "form": form}));
+                    }
+                }
+                Ok(Err(e)) | Err(e) => ctx.machinery_error(format!("replacement fixture failed for gid {g}: {e:?}")),
+            }
+        }
+    }
     // generated path on the server
     for i in 0..8u32 {
         let low = [0u32, 1, 999, 65534, 65535, 0x0fff_ffff, 0xf000_03e7, 0xffff_ffff][i as usize];
